@@ -514,6 +514,8 @@ impl RawVector {
                 self.data[index] |= !bits::low_set(width);
             }
             else {
+                #[cfg(feature = "verif-probes")]
+                if self.data[index] & !bits::low_set(width) != 0 { crate::verif::hit(crate::verif::probe::TAIL_CLEARED); }
                 self.data[index] &= bits::low_set(width);
             }
         }
@@ -544,6 +546,8 @@ impl AccessRaw for RawVector {
 
     #[inline]
     unsafe fn word_unchecked(&self, index: usize) -> u64 {
+        #[cfg(feature = "verif-bounds")]
+        if index >= self.data.len() { crate::verif::oob("RawVector::word_unchecked", index, self.data.len()); }
         *self.data.get_unchecked(index)
     }
 
@@ -805,6 +809,14 @@ impl RawVectorWriter {
                 }
             }
 
+            #[cfg(feature = "verif-probes")]
+            crate::verif::hit(match (mode, overflow.1 > 0, self.buf.is_empty()) {
+                (FlushMode::Safe, true, _) => crate::verif::probe::FLUSH_SAFE_CARRY,
+                (FlushMode::Safe, false, _) => crate::verif::probe::FLUSH_SAFE_EXACT,
+                (FlushMode::Final, _, true) => crate::verif::probe::FLUSH_FINAL_EMPTY,
+                (FlushMode::Final, _, false) => crate::verif::probe::FLUSH_FINAL_NONEMPTY,
+            });
+
             // Serialize and clear the buffer.
             self.buf.serialize_body(f)?;
             self.buf.clear();
@@ -977,6 +989,8 @@ impl<'a> AccessRaw for RawVectorMapper<'a> {
 
     #[inline]
     unsafe fn word_unchecked(&self, index: usize) -> u64 {
+        #[cfg(feature = "verif-bounds")]
+        if index >= self.data.len() { crate::verif::oob("RawVectorMapper::word_unchecked", index, self.data.len()); }
         *self.data.get_unchecked(index)
     }
 
